@@ -17,7 +17,7 @@ AST statement may map to several CFG nodes: use `nodes_of(stmt)`.
 
 import ast
 
-from .index import AnalysisError, norm, head
+from .index import AnalysisError, N, norm, head
 
 CATCH_ALL = {"Exception", "BaseException"}
 
@@ -465,7 +465,7 @@ class CFG:
         """Literal facts (text, polarity) known to hold at `node`, from dominating guard nodes.
         Facts are about the moment the guard was evaluated (no kill analysis): callers use them for
         tests of parameters and attributes that are not reassigned in between."""
-        facts = set()
+        facts = FactSet()
         for g in self.dominated_by(node, lambda d: d.kind == "guard" and d.test is not None, kinds):
             facts |= literals(g.test, g.polarity)
         if node.kind == "guard" and node.test is not None:
@@ -488,9 +488,26 @@ class CFG:
         return sorted(gs, key=lambda g: g.id)
 
 
+class FactSet(set):
+    """Set of (canonical text, polarity); membership tests canonicalise the probe, so rules may
+    write `("self.start > self.end", True) in facts` in any equivalent spelling."""
+
+    def __contains__(self, item):
+        if set.__contains__(self, item):
+            return True
+        try:
+            t, p = item
+            return set.__contains__(self, (N(t), p))
+        except Exception:
+            return False
+
+    def __le__(self, other):
+        return all(x in other for x in self)
+
+
 def literals(test, polarity):
     """Decompose a test known to be `polarity` into literal facts {(text, bool)}."""
-    out = set()
+    out = FactSet()
 
     def rec(e, pol):
         if isinstance(e, ast.UnaryOp) and isinstance(e.op, ast.Not):
